@@ -227,7 +227,15 @@ func (w *walker) stmt(st ast.Stmt) {
 		w.emit("go", 0, 0, src(s.Call.Fun))
 		w.expr(s.Call, false)
 	case *ast.AssignStmt:
-		for _, r := range s.Rhs {
+		for i, r := range s.Rhs {
+			// `x := append(obj.field, …)`: the result may share obj.field's backing array
+			if call, ok := r.(*ast.CallExpr); ok && i < len(s.Lhs) {
+				if id, ok := call.Fun.(*ast.Ident); ok && id.Name == "append" && len(call.Args) > 0 {
+					if _, isSel := call.Args[0].(*ast.SelectorExpr); isSel && src(call.Args[0]) != src(s.Lhs[i]) {
+						w.emit("aliasAppend", 0, 0, src(s))
+					}
+				}
+			}
 			w.expr(r, false)
 		}
 		for i, l := range s.Lhs {
@@ -576,6 +584,8 @@ func main() {
 				op = fmt.Sprintf(".chanLen %d", it.A)
 			case "assignNil":
 				op = fmt.Sprintf(".assignNil %s", q(it.Name))
+			case "aliasAppend":
+				op = fmt.Sprintf(".aliasAppend %s", q(it.Name))
 			case "go":
 				op = fmt.Sprintf(".goStmt %s", q(it.Name))
 			default:
